@@ -841,3 +841,100 @@ Proof.
   exists f, root. split; [reflexivity|]. split; [congruence|].
   eapply judge_fs_sound; [congruence | exact H].
 Qed.
+
+(* ------------------------------------------------------------------ *)
+(* the domain of the substitution, and what a fence delimiter is        *)
+(* ------------------------------------------------------------------ *)
+Theorem good_iff : forall f p,
+  good f p <-> ((forall q, reach f p q -> ~ on_cycle f q) /\
+                (lookup f p <> None /\ forall q raw, reach f p q -> ~ dangling f q raw)).
+Proof.
+  intros f p. split.
+  - intros Hg. split; [|split].
+    + intros q Hre. apply good_no_cycle. eapply good_reach; eauto.
+    + inversion Hg; congruence.
+    + intros q raw Hre. apply good_no_dangling. eapply good_reach; eauto.
+  - intros [Hac Hpres]. destruct (expand_acyclic f p Hac Hpres) as [t [E _]].
+    now apply expand_ok_subst in E.
+Qed.
+
+Theorem subst_defined_iff : forall f p, (exists t, subst_file f p t) <-> good f p.
+Proof.
+  intros f p. split.
+  - intros [t H]. eapply subst_file_good; eauto.
+  - intros Hg. destruct (expand_good f p Hg) as [t [_ H]]. eauto.
+Qed.
+
+Lemma strip_spaces_spec : forall n s k t, strip_spaces n s = (k, t) ->
+  k <= n /\ s = repeat c_sp k ++ t /\ (k < n -> match t with c :: _ => c <> c_sp | [] => True end).
+Proof.
+  induction n as [|n IH]; intros s k t H; cbn in H.
+  - inversion H; subst. split; [lia|]. split; [reflexivity|]. intros Hlt. lia.
+  - destruct s as [|c r].
+    { inversion H; subst. split; [lia|]. split; [reflexivity|]. intros _. exact I. }
+    destruct (Ascii.eqb c c_sp) eqn:E.
+    + apply Ascii.eqb_eq in E. subst c. destruct (strip_spaces n r) as [k' t'] eqn:E'. inversion H; subst.
+      destruct (IH _ _ _ E') as [H1 [H2 H3]]. split; [lia|]. split.
+      * cbn. now rewrite H2 at 1.
+      * intros Hlt. apply H3. lia.
+    + inversion H; subst. split; [lia|]. split; [reflexivity|]. intros _ ->. now rewrite Ascii.eqb_refl in E.
+Qed.
+
+Lemma run_of_spec : forall m s k t, run_of m s = (k, t) ->
+  s = repeat m k ++ t /\ match t with c :: _ => c <> m | [] => True end.
+Proof.
+  intros m. induction s as [|c r IH]; intros k t H; cbn in H.
+  - inversion H; subst. now split.
+  - destruct (Ascii.eqb c m) eqn:E.
+    + apply Ascii.eqb_eq in E. subst c. destruct (run_of m r) as [k' t'] eqn:E'. inversion H; subst.
+      destruct (IH _ _ eq_refl) as [H1 H2]. split; [cbn; now rewrite H1 at 1 | exact H2].
+    + inversion H; subst. split; [reflexivity|]. intros ->. now rewrite Ascii.eqb_refl in E.
+Qed.
+
+(* a fence delimiter line: at most 3 spaces, then a maximal run of at least 3 backticks or of at least 3 tildes *)
+Theorem code_fence_delimiter_sound : forall l m n after,
+  code_fence_delimiter l = Some (m, n, after) ->
+  exists k, k <= 3 /\ l = repeat c_sp k ++ repeat m n ++ after /\ (m = c_tick \/ m = c_tilde) /\ 3 <= n /\
+            match after with c :: _ => c <> m | [] => True end.
+Proof.
+  intros l m n after H. unfold code_fence_delimiter in H.
+  destruct (strip_spaces 4 l) as [i rest] eqn:Es. destruct (Nat.ltb 3 i) eqn:Ei; [discriminate|].
+  apply Nat.ltb_ge in Ei. destruct rest as [|c rest']; [discriminate|].
+  destruct (orb (Ascii.eqb c c_tick) (Ascii.eqb c c_tilde)) eqn:Em; [|discriminate].
+  destruct (run_of c (c :: rest')) as [count aft] eqn:Er. destruct (Nat.ltb count 3) eqn:Ec; [discriminate|].
+  apply Nat.ltb_ge in Ec. inversion H; subst.
+  destruct (strip_spaces_spec _ _ _ _ Es) as [_ [Hl _]]. destruct (run_of_spec _ _ _ _ Er) as [Hr Ha].
+  exists i. repeat split; try lia; [now rewrite Hl, Hr | | exact Ha].
+  apply orb_prop in Em as [Em|Em]; apply Ascii.eqb_eq in Em; auto.
+Qed.
+
+Lemma strip_spaces_repeat : forall b j t, j < b -> match t with c :: _ => c <> c_sp | [] => True end ->
+  strip_spaces b (repeat c_sp j ++ t) = (j, t).
+Proof.
+  induction b as [|b IH]; intros j t Hj Ht; [lia|]. destruct j as [|j]; cbn.
+  - destruct t as [|c r]; [reflexivity|]. cbn. destruct (Ascii.eqb c c_sp) eqn:E; [apply Ascii.eqb_eq in E; congruence | reflexivity].
+  - try rewrite Ascii.eqb_refl. rewrite IH by (auto; lia). reflexivity.
+Qed.
+
+Lemma run_of_repeat : forall m j t, match t with c :: _ => c <> m | [] => True end -> run_of m (repeat m j ++ t) = (j, t).
+Proof.
+  intros m j t Ht. induction j as [|j IH]; cbn.
+  - destruct t as [|c r]; [reflexivity|]. cbn. destruct (Ascii.eqb c m) eqn:E; [apply Ascii.eqb_eq in E; congruence | reflexivity].
+  - rewrite Ascii.eqb_refl. now rewrite IH.
+Qed.
+
+Theorem code_fence_delimiter_complete : forall k m n after,
+  k <= 3 -> (m = c_tick \/ m = c_tilde) -> 3 <= n -> match after with c :: _ => c <> m | [] => True end ->
+  code_fence_delimiter (repeat c_sp k ++ repeat m n ++ after) = Some (m, n, after).
+Proof.
+  intros k m n after Hk Hm Hn Ha.
+  assert (Hms : m <> c_sp) by (destruct Hm as [-> | ->]; discriminate).
+  destruct n as [|n']; [lia|]. unfold code_fence_delimiter.
+  rewrite strip_spaces_repeat; [|lia|cbn; exact Hms].
+  replace (Nat.ltb 3 k) with false by (symmetry; apply Nat.ltb_ge; lia).
+  cbn [repeat app]. replace (orb (Ascii.eqb m c_tick) (Ascii.eqb m c_tilde)) with true
+    by (destruct Hm as [-> | ->]; reflexivity).
+  change (m :: repeat m n' ++ after) with (repeat m (S n') ++ after).
+  rewrite run_of_repeat by exact Ha.
+  replace (Nat.ltb (S n') 3) with false by (symmetry; apply Nat.ltb_ge; lia). reflexivity.
+Qed.
